@@ -23,7 +23,7 @@ func newPredGen(r *Rng, init []KV) *predGen {
 			pg.keys = append(pg.keys, kv.K)
 		}
 	}
-	pg.keys = append(pg.keys, "a", "ab", "k", "k0", "k00", "k01", "k005", "k010", "m", "zz", "nokey")
+	pg.keys = append(pg.keys, "a", "ab", "k", "k0", "k00", "k01", "k005", "k010", "m", "zz", "nokey", "")
 	return pg
 }
 
@@ -48,6 +48,15 @@ func (g *predGen) keyAtom() string {
 		ks := make([]string, n)
 		for i := range ks {
 			ks[i] = g.lit()
+		}
+		if r.Chance(0.3) {
+			// the same few keys listed several times, not next to each other
+			base := []string{g.lit(), g.lit(), g.lit()}
+			ks = ks[:0]
+			for i := 0; i < r.Range(3, 6); i++ {
+				ks = append(ks, base[i%len(base)])
+			}
+			shuffle(r, ks)
 		}
 		return "key in " + inList(ks)
 	case 3, 4:
